@@ -493,47 +493,59 @@ def correspond(ctx):
     nconf = ctx.budget(14, 60)
     per = 3
     all_lines = []; index = []
+    from harness import zoo
     with tempfile.TemporaryDirectory(prefix='c09_') as tmpdir:
-        for ci in range(nconf + 1):
-            cfg = fixed_config() if ci == 0 else gen_config(ctx.rng)
+        # generated configurations (3 scripts each), then every entry of the scenario zoo (1 script each)
+        todo = [(None, None)] * (nconf + 1) + list(zoo.configs())
+        for ci, (zname, zcfg) in enumerate(todo):
+            pre = f'[zoo:{zname}] ' if zname else ''
             try:
+                cfg = zcfg if zname else (fixed_config() if ci == 0 else gen_config(ctx.rng))
                 probe = fresh_sim(cfg)
+                nplan, nfuncs = len(probe.loop.plan), len(probe.loop.funcs)
+                desc0 = c08.describe(probe)
             except Exception as e:
-                ctx.count('rejected_' + type(e).__name__); continue
-            nplan, nfuncs = len(probe.loop.plan), len(probe.loop.funcs)
-            desc0 = c08.describe(probe)
+                if zname: ctx.count('zoo_exceptions'); ctx.notes['last_zoo_exception'] = f'{zname} (correspond): {type(e).__name__}: {e}'
+                else: ctx.count('rejected_' + type(e).__name__)
+                continue
             if not c08.separated(desc0, nfuncs):
-                ctx.count('skipped_not_separated'); continue
-            for _ in range(per):
+                # (the model's plan order is C08's; entries whose module times are closer than the tie-break resolution are C08's business)
+                ctx.count('zoo_skipped_not_separated' if zname else 'skipped_not_separated'); continue
+            for _ in range(1 if zname else per):
                 script = gen_script(ctx.rng, probe, nplan, nfuncs)
+                if zname and reads_global(cfg):
+                    script['twin'] = None      # a twin of a sim whose outcome depends on the process-global generator is C01's finding
                 try:
                     ex = execute_script(cfg, script, tmpdir)
                 except Exception as e:
                     import traceback
+                    if zname:
+                        ctx.count('zoo_exceptions'); ctx.notes['last_zoo_exception'] = f'{zname} (correspond): {type(e).__name__}: {e}'; continue
                     ctx.broke('correspondence', 'C09.harness', f'executing a script raised {type(e).__name__}: {e}\n{traceback.format_exc()[-800:]}', data=dict(cfg=cfg, script=script))
                     continue
+                if zname: ctx.count('zoo_scripts')
                 for f_sig, f_what in final_diffs(cfg, ex, script):
-                    ctx.fail(f_sig, f_what, dict(kind='script', cfg=cfg, script=script))
+                    ctx.fail(f_sig, pre + f_what, dict(kind='script', cfg=cfg, script=script))
                 for tag in ('a', 'b'):
                     lines = ex[f'lines_{tag}']
                     if lines is None: continue
-                    index.append((cfg, script, tag, len(all_lines), lines, ex[f'obs_{tag}']))
+                    index.append((cfg, script, tag, len(all_lines), lines, ex[f'obs_{tag}'], pre))
                     all_lines += lines
                 nontrivial = any(o[0] == 'restore' and o[1] != 'none' for o in script['ops']) or script['twin'] is not None
                 ctx.case(('c09', repr(cfg), repr(script)), nontrivial,
-                         sample=dict(cfg={k: cfg[k] for k in ('unit', 'dt', 'start', 'dur', 'n_agents', 'pop_scale')}, plan=nplan,
+                         sample=dict(cfg={k: cfg.get(k) for k in ('unit', 'dt', 'start', 'dur', 'n_agents', 'pop_scale')}, zoo=zname, plan=nplan,
                                      ops=script['ops'][:6], twin=(script['twin'] or {}).get('mode'), tail=script['tail']))
                 for o in script['ops'] + script['tail'] + (script['twin'] or {}).get('ops', []):
                     ctx.count('op_' + o[0] + ('_' + o[1] if o[0] == 'restore' else ''))
                 if script['twin']: ctx.count('twin_' + script['twin']['mode'])
         out = ctx.drive(DRIVER, all_lines) if all_lines else []
-    for cfg, script, tag, off, lines, obs in index:
+    for cfg, script, tag, off, lines, obs, pre in index:
         ml = out[off:off + len(lines)]
         div = compare_obs(lines, obs, ml)
         for o in obs:
             if o['res'].startswith('E:'): ctx.count('err_' + o['res'][:12])
         if div:
-            ctx.broke('correspondence', 'C09.control', f'run-control state diverges from Model/RunState.lean ({"copy" if tag == "b" else "original"} line): {div}',
+            ctx.broke('correspondence', 'C09.control', f'{pre}run-control state diverges from Model/RunState.lean ({"copy" if tag == "b" else "original"} line): {div}',
                       data=dict(cfg=cfg, script=script, lines=lines[1:40]))
             break
 
@@ -720,7 +732,7 @@ def step_points(sim, s):
 def zoo_plan(name, cfg, i, seed):
     """ the one variant of zoo entry number i: a pause after a single function inside a step (kind rotating; five of the seven
         kinds lie between death resolution and the end of the step), one restore mode (rotating), a second mid-step pause of
-        another kind two steps later on the copy, and a pause via a stop time (at / between time points, rotating) on the original """
+        another kind two steps later on the copy, and a pause via a stop time (at / between time points after the pause, or already in its past; rotating) on the original """
     probe = fresh_sim(cfg)
     npts = int(probe.t.npts)
     s1 = max(1, npts // 3)
@@ -734,6 +746,8 @@ def zoo_plan(name, cfg, i, seed):
     tv = probe.t.timevec
     j = min(npts - 1, s1 + 1 + (i + seed) % 3)
     between = ((i + seed) // 3) % 2 == 1
+    if (i + seed) % 5 == 4:
+        j = max(0, s1 - 1)          # a stop time already in the past of the pause: exactly one more function runs
     if hasattr(tv[0], 'toordinal'):
         import datetime as dtm
         d = tv[j]
